@@ -1,5 +1,6 @@
 //! Correspondence harness: runs the real rs-tftpd code on line-protocol cases.
 mod capture;
+mod client;
 mod codec;
 mod multi;
 mod netloop;
@@ -39,6 +40,7 @@ fn dispatch(line: &str) -> String {
         "abort" => server::abort_line(&toks),
         "timing" => server::timing_line(&toks),
         "multi" => multi::multi_line(&toks),
+        "cli" => client::cli_line(&toks),
         _ => "bad-op".to_string(),
     }
 }
